@@ -27,6 +27,10 @@ def PiPtr.cfgBuild (raw : RawCfg) : Except Err PiPtrCfg := do
   let ske ← AESxCBC.new lam
   pure { lambda := lam, B := B, b := b, idSize := ids, prfF := HmacPRF.new out lam LENGTH_UNLIMITED 20, ske := ske }
 
+/-- the dictionary half of PiPtr is a counter chain whose chunks are pointer blocks -/
+def PiPtrCfg.chain (cfg : PiPtrCfg) : ChainCfg :=
+  { lambda := cfg.lambda, prfF := cfg.prfF, ske := cfg.ske, pack := .ok, unpack := fun p => parseByCount p cfg.b }
+
 /-- `math.ceil(math.log2(n) / 8)`: the least `k` with `256^k ≥ n` (n ≥ 1) -/
 def bytesFor (n : Nat) : Nat := ceilDiv (clog2 n) 8
 
@@ -71,8 +75,7 @@ def encDb (K : Bytes) (idxSize : Nat) :
     let blocks ← partitionBlocks ids cfg.B cfg.idSize
     let (ptrs, avail1, A1, t1) ← placeBlocks cfg lv K2 idxSize blocks avail A t
     let pblocks ← partitionBlocks ptrs cfg.b idxSize
-    let chainCfg : ChainCfg := { lambda := cfg.lambda, prfF := cfg.prfF, ske := cfg.ske, pack := .ok, unpack := fun p => .ok [p] }
-    let (ps, t2) ← Chain.encChunks chainCfg lv K1 K2 0 pblocks t1
+    let (ps, t2) ← Chain.encChunks cfg.chain lv K1 K2 0 pblocks t1
     let (qs, A2, t3) ← encDb K idxSize rest avail1 A1 t2
     pure (ps ++ qs, A2, t3)
 
@@ -85,17 +88,9 @@ def setup (K : Bytes) (db : DB) (t : Tape) : Except Err (PiPtrEDB × Tape) := do
   let (L, A, t1) ← encDb cfg lv K idxSize db avail (List.replicate alen none) t0
   pure ({ D := buildTable L, A := A }, t1)
 
-/-- first loop of `_Search`: collect the pointers -/
-def ptrLoop (D : Table) (K1 K2 : Bytes) : Nat → Nat → List Bytes → Except Err (List Bytes)
-  | 0, _, _ => .error .diverges
-  | fuel + 1, c, acc => do
-    let addr ← cfg.prfF.call lv.hmac K1 (natToBytesMin c)
-    match D.get addr with
-    | none => pure acc
-    | some cipher =>
-      let p ← cfg.ske.decrypt lv.D K2 cipher
-      let ptrs ← parseByCount p cfg.b
-      ptrLoop D K1 K2 fuel (c + 1) (acc ++ ptrs)
+/-- first loop of `_Search`: collect the pointers — the probe loop of the counter chain -/
+def ptrLoop (D : Table) (K1 K2 : Bytes) (fuel c : Nat) (acc : List Bytes) : Except Err (List Bytes) :=
+  Chain.searchLoop cfg.chain lv D K1 K2 fuel c acc
 
 /-- second loop: fetch, decrypt and parse the identifier blocks -/
 def fetch (A : List (Option Bytes)) (K2 : Bytes) : List Bytes → Except Err (List Bytes)
@@ -114,6 +109,28 @@ def fetch (A : List (Option Bytes)) (K2 : Bytes) : List Bytes → Except Err (Li
 def search (edb : PiPtrEDB) (tk : Bytes × Bytes) : Except Err (List Bytes) := do
   let ptrs ← ptrLoop cfg lv edb.D tk.1 tk.2 (edb.D.length + 1) 0 []
   fetch cfg lv edb.A tk.2 ptrs
+
+/-! the hypotheses of the PiPtr theorems as a computation on this run -/
+
+def hypsB (K : Bytes) (db : DB) (t : Tape) (absent : List Bytes) : Bool :=
+  match takeNats t with
+  | .error _ => false
+  | .ok (avail, t0) =>
+    Chain.nodupB (avail.map natToBytesMin) && avail.all (· > 0) &&
+    match encDb cfg lv K (bytesFor (arrayLen cfg db)) db avail (List.replicate (arrayLen cfg db) none) t0 with
+    | .error _ => false
+    | .ok (L, _, _) =>
+      let labels := L.map (·.1)
+      Chain.nodupB labels &&
+      db.all (fun p => match token cfg lv K p.1 with
+        | .ok (K1, _) =>
+          (match cfg.prfF.call lv.hmac K1 (natToBytesMin (ceilDiv (ceilDiv p.2.length cfg.B.toNat) cfg.b.toNat)) with
+           | .ok l => !labels.contains l | .error _ => false)
+        | .error _ => false) &&
+      absent.all (fun w => match token cfg lv K w with
+        | .ok (K1, _) => (match cfg.prfF.call lv.hmac K1 (natToBytesMin 0) with
+           | .ok l => !labels.contains l | .error _ => false)
+        | .error _ => false)
 
 end PiPtr
 end SSEPy.Sch
